@@ -406,7 +406,7 @@ func c04Combine(cfg Config, r *Result, model, spec *Model) {
 			}
 		}
 	}
-	extra := cfg.N(20000, 400000)
+	extra := cfg.N(8000, 300000)
 	for i := 0; i < extra; i++ {
 		n := 3 + cfg.Rng.Intn(2)
 		l := make([]*mty, n)
